@@ -44,7 +44,7 @@ func TestC11(t *testing.T) {
 	}
 	restore := faultsql.Install()
 	defer restore()
-	configs := []string{"memory", "memory-paged", "sqlite-file", "sqlite-batch1", "sqlite-batch2", "sqlite-batch3", "sqlite-batch5", "durable", "durable-chunk400"}
+	configs := []string{"memory", "memory-paged", "sqlite-paged", "sqlite-file", "sqlite-batch1", "sqlite-batch2", "sqlite-batch3", "sqlite-batch5", "durable", "durable-chunk400"}
 	batches := []int{1, 2, 3, 5, 100, 0, -1}
 	maxLen := run.Scale(6, 12)
 	if !run.Thorough() {
@@ -52,7 +52,14 @@ func TestC11(t *testing.T) {
 	}
 	idx := 0
 	for _, cfg := range configs {
+		lens := []int{}
 		for L := 0; L <= maxLen; L++ {
+			lens = append(lens, L)
+		}
+		if cfg == "sqlite-paged" && maxLen < 11 {
+			lens = append(lens, 11) // the log must cross "9" -> "10"
+		}
+		for _, L := range lens {
 			idx++
 			if !run.Mine(idx) {
 				continue
@@ -128,6 +135,22 @@ func TestC11(t *testing.T) {
 						one(run, cfg, st, offs, b, L, start, f)
 					}
 				}
+				if !strings.HasPrefix(cfg, "durable") {
+					// a start offset beyond the newest event: issued by a longer log of the same kind
+					base := cfg
+					if cfg == "sqlite-paged" {
+						base = "sqlite-file"
+					}
+					if longer, err := stores.Open(base, scratch); err == nil {
+						var off ebu.Offset
+						for i := 0; i < L+3; i++ {
+							off, _ = longer.Store.Append(context.Background(), &ebu.Event{Type: "x", Data: json.RawMessage(`1`)})
+						}
+						longer.Close()
+						longer.Remove()
+						one(run, cfg, st, append(append([]ebu.Offset{}, offs...), off), b, L, L+1, fail{Kind: "none"})
+					}
+				}
 			}
 			st.Close()
 			st.Remove()
@@ -138,6 +161,9 @@ func TestC11(t *testing.T) {
 
 func one(run *vk.Run, cfg string, st *stores.Opened, offs []ebu.Offset, batch, L, start int, f fail) {
 	S := L - start
+	if S < 0 {
+		S = 0 // a start offset beyond the newest event: nothing follows it
+	}
 	faults := stores.NewFaults()
 	switch f.Kind {
 	case "store-read":
